@@ -45,8 +45,11 @@ def qe_desc(draw, wave_nm):
     rel = draw(st.sampled_from(["wider", "wider", "on_grid", "narrower"]))
     if rel == "on_grid":
         # the sampled wavelengths are themselves grid points of the efficiency curve
-        w = np.array(sorted(set([max(lo, 10.0), hi] + list(wave_nm) + [0.5 * (min(wave_nm) + max(wave_nm)) + 0.37])))
-        m = len(w)
+        knots = sorted(set([max(lo, 10.0), hi] + list(wave_nm) + [0.5 * (min(wave_nm) + max(wave_nm)) + 0.37]))
+        # knots closer than 1e-3 nm would make a curve that unit conversion cannot even represent (duplicates)
+        if min(b_ - a_ for a_, b_ in zip(knots, knots[1:])) >= 1e-3:
+            w = np.array(knots)
+            m = len(w)
     elif rel == "narrower" and n >= 2:
         # the curve ends inside the sampled band: wavelengths beyond it see no efficiency (clearly inside/outside:
         # the ends sit 30 % / 70 % of the way between two sampled wavelengths)
